@@ -10,6 +10,7 @@ use model::set::{path_defs, render_module, stress_defs, SubjectDef, SubjectSet};
 fn main() {
     println!("cargo:rerun-if-changed=build.rs");
     println!("cargo:rerun-if-changed=/repo/logos-codegen/src");
+    println!("cargo:rerun-if-changed=/repo/tests/tests");
     let mut runner = TestRunner::new(Config { rng_seed: RngSeed::Fixed(0xF022), failure_persistence: None, ..Config::default() });
     let strat = lexing_defs();
     let mut defs: Vec<SubjectDef> = Vec::new();
@@ -31,6 +32,15 @@ fn main() {
         if prepare(&sd.def).is_ok() {
             let twin = { let mut t = sd.def.clone(); t.utf8 = false; sd.def.utf8 && prepare(&t).is_ok() };
             defs.push(SubjectDef { twin, ..sd });
+        }
+    }
+    // harvested members: the largest definitions that ship with the repository (model::harvest), every fourth of the rest
+    let mut hv: Vec<_> = model::harvest::harvest().into_iter().filter_map(|h| prepare(&h.def).ok().map(|p| (p.graph.states.len(), h))).filter(|(n, _)| *n <= 400).collect();
+    hv.sort_by(|a, b| b.0.cmp(&a.0).then(a.1.origin.cmp(&b.1.origin)));
+    for (i, (_, h)) in hv.into_iter().enumerate() {
+        if i < 8 || i % 4 == 0 {
+            let twin = { let mut t = h.def.clone(); t.utf8 = false; h.def.utf8 && prepare(&t).is_ok() };
+            defs.push(SubjectDef { family: "core".into(), def: h.def, skip_log: i % 2 == 0, has_value: vec![], error_cb: false, twin });
         }
     }
     for d in defs.iter_mut() {
